@@ -10,6 +10,12 @@ scratch = '/tmp/seedtest_%d' % os.getpid()
 shutil.rmtree(scratch, ignore_errors=True)
 os.makedirs(scratch)
 shutil.copytree('/repo/src', scratch + '/src')
+for item in ('Cargo.toml', 'Cargo.lock', 'benches', 'examples'):
+    p_ = os.path.join('/repo', item)
+    if os.path.isdir(p_):
+        shutil.copytree(p_, os.path.join(scratch, item))
+    elif os.path.exists(p_):
+        shutil.copy(p_, os.path.join(scratch, item))
 r = subprocess.run(['patch', '-p1', '-s', '-d', scratch, '-i', patch], capture_output=True, text=True)
 if r.returncode != 0:
     print('patch failed', r.stdout, r.stderr); sys.exit(3)
